@@ -6,7 +6,10 @@ relu, add}) and the rewritten GraphModule is compared -- outputs and all gradien
 bit for bit -- with a reference evaluation of the same program that inserts
 quantise_fwd / quantise_bwd by hand.  Formats: nearest rounding (deterministic) and the
 lossless E8M23 (must reproduce the unquantised program exactly).  This validates the
-assumed fx contracts end to end; the TorchDynamo path is NOT exercised (assumed)."""
+assumed fx contracts end to end.  The real TorchDynamo path is exercised on a few small
+modules whose ROOT is a container, a bare nn.Linear, or an nn.Sequential (the property's
+"root module either a container or itself a torch.nn layer"): simulate_format(module) vs
+the hand-inserted reference, outputs and all gradients, bit for bit."""
 import argparse
 import itertools
 import json
@@ -116,6 +119,45 @@ def main():
                     viol.append({"name": "C15:bounded:graph_rewrite_equals_hand_inserted_quantisation", "program": list(prog), "formats": [str(fwd), str(bwd)], "reproduced": True})
             except Exception as e:
                 viol.append({"name": "C15:bounded:backend_raises", "program": list(prog), "error": f"{type(e).__name__}: {e}"[:200], "reproduced": True})
+    # ---- the real TorchDynamo path: root = container / torch.nn layer
+    from unit_scaling.transforms import simulate_format
+
+    def qlin(lin, h, fwd, bwd):
+        return bwd.quantise_bwd(F.linear(fwd.quantise_fwd(h), fwd.quantise_fwd(lin.weight), lin.bias))
+
+    class Wrap(nn.Module):
+        def __init__(self):
+            super().__init__()
+            self.l = nn.Linear(d, d)
+
+        def forward(self, x):
+            return torch.relu(self.l(x))
+
+    roots = {
+        "container": (Wrap, lambda m, x, f, b: torch.relu(qlin(m.l, x, f, b))),
+        "bare nn.Linear": (lambda: nn.Linear(d, d), lambda m, x, f, b: qlin(m, x, f, b)),
+        "nn.Sequential": (lambda: nn.Sequential(nn.Linear(d, d), nn.ReLU(), nn.Linear(d, d)), lambda m, x, f, b: qlin(m[2], torch.relu(qlin(m[0], x, f, b)), f, b)),
+    }
+    for rname, (mk, ref) in roots.items():
+        for fwd, bwd in fmts:
+            n += 1
+            torch.manual_seed(a.seed + 1)
+            m = mk()
+            x1 = torch.randn(3, d, requires_grad=True)
+            try:
+                q = simulate_format(m, fwd, bwd)
+                y1 = q(x1)
+                g1 = torch.autograd.grad(y1.sum(), [x1] + list(q.parameters()))
+                x2 = x1.detach().clone().requires_grad_(True)
+                y2 = ref(m, x2, fwd, bwd)
+                g2 = torch.autograd.grad(y2.sum(), [x2] + list(m.parameters()))
+                same = torch.equal(y1, y2) and all(torch.equal(p_, q_) for p_, q_ in zip(g1, g2))
+                if fwd.mantissa_bits == 23:
+                    same = same and torch.equal(y1, m(x1))
+                if not same:
+                    viol.append({"name": f"C15:bounded:simulate_format_through_TorchDynamo_equals_hand_inserted_quantisation[root={rname}]", "formats": [str(fwd), str(bwd)], "max_abs_diff": float((y1 - y2).abs().max()), "equals_unquantised": bool(torch.equal(y1, m(x1))), "reproduced": True})
+            except Exception as e:
+                viol.append({"name": f"C15:bounded:simulate_format_raises[root={rname}]", "error": f"{type(e).__name__}: {e}"[:200], "reproduced": True})
     print(json.dumps({"name": "c15-fx-graphs", "kind": "BOUNDED stand-in (hand-built fx graphs, real backend vs hand-inserted quantisation); not counted as proved", "ok": not viol, "obligations": 0, "discharged": 0, "evaluations": n, "bound": f"all programs of <= {max_len} call nodes over {names} that contain a linear/attention op ({len(progs)} programs) x 2 format pairs", "violations": viol[:5]}))
 
 
